@@ -170,6 +170,17 @@ def pre_menu(scn):
     return out
 
 
+def late_menu(scn):
+    """one existing requirement edge wired only after the pre-run queries"""
+    out = []
+    for node, _ in gen.walk(scn['tree']):
+        if gen.is_sched(node):
+            for k in node['nodes']:
+                for r in k['req']:
+                    out.append(('', 'late', [[r, k['name']]]))
+    return out
+
+
 def expand(item):
     seen = set()
     k = item.get('k', 0)
@@ -181,6 +192,8 @@ def expand(item):
         menu += [tuple(m) for m in item.get('extra', ())]
         if item.get('pre'):
             menu += pre_menu(base)
+            menu += late_menu(base)
+            menu.append(('', 'peek', True))
         for scn, _ in gen.variants(base, menu, k):
             if item.get('adm', True) and not gen.admissible(scn):
                 continue
